@@ -67,7 +67,7 @@ def evalImg (heap : Array Cell) : Nat → V → String
     | .host _ => "G"
 
 def evalImgs (heap : Array Cell) (vs : List V) : String :=
-  "[" ++ " ".intercalate (vs.map (evalImg heap 26)) ++ "]"
+  "[" ++ " ".intercalate (vs.map (evalImg heap 25)) ++ "]"
 
 def showRun (o : RunOut) (oldN : Nat) : String :=
   let s := o.session
@@ -81,11 +81,11 @@ def showRun (o : RunOut) (oldN : Nat) : String :=
   | .outOfFuel, _ => "unsupported fuel"
   | res, some bc =>
     let outS := match res with
-      | .value v => "val " ++ evalImg s.vm.heap 26 v
+      | .value v => "val " ++ evalImg s.vm.heap 25 v
       | .error e => showVmErr s.vm e
       | _ => "?"
     let cs := " ".intercalate ((bc.constants.toList.drop oldN).map showConst)
-    s!"run {showFn bc.main} consts={cs} out={outS} locals={evalImgs s.vm.heap s.locals} globals={evalImg s.vm.heap 26 s.globals}"
+    s!"run {showFn bc.main} consts={cs} out={outS} locals={evalImgs s.vm.heap s.locals} globals={evalImg s.vm.heap 25 s.globals}"
   | _, none => "bad"
 
 def handleEval (args : List String) : String :=
